@@ -27,9 +27,9 @@
 (* Norm only: HashKey); comparing kinds of different versions upgrades the *)
 (* older one and upgrading preserves Le.                                   *)
 (*                                                                         *)
-(* State machine: NObj live kind objects; every public operation of the    *)
-(* property is a query: it returns a value (ret) and leaves all objects    *)
-(* unchanged (QueryPure).                                                  *)
+(* State machine: up to NObj kind objects, created by New (the            *)
+(* constructor); every other public operation of the property is a query:  *)
+(* it returns a value (ret) and leaves all objects unchanged (QueryPure).  *)
 (***************************************************************************)
 EXTENDS Integers, Sequences, FiniteSets, TLC
 
@@ -49,15 +49,15 @@ Max2(x, y) == IF x >= y THEN x ELSE y
 \* features a kind of version v may carry / that count in version v (get_valid_features);
 \* tabulated once (TLC re-evaluates operator bodies on every use; zero-arity constant definitions
 \* are evaluated once at start-up)
-AvailT == TLCEval([v \in Versions |-> ({f \in Feat : Added[f] <= v})])
-ValidT == TLCEval([v \in Versions |-> ({f \in AvailT[v] : Depr[f] = 0 \/ Depr[f] > v})])
+AvailT == TLCEval([v \in Versions |-> {f \in Feat : Added[f] <= v}])
+ValidT == TLCEval([v \in Versions |-> {f \in AvailT[v] : Depr[f] = 0 \/ Depr[f] > v}])
 Avail(v) == AvailT[v]
 Valid(v) == ValidT[v]
 
 -----------------------------------------------------------------------------
 (* kinds *)
 \* version=None: the newest version that introduced one of the features (1 if there is none)
-NewInT == TLCEval([v \in Versions |-> ({f \in Feat : Added[f] = v})])
+NewInT == TLCEval([v \in Versions |-> {f \in Feat : Added[f] = v}])
 RECURSIVE NewestIn(_, _)
 NewestIn(F, v) == IF v = 1 \/ F \cap NewInT[v] # {} THEN v ELSE NewestIn(F, v - 1)
 ComputedVer(F) == NewestIn(F, Latest)
@@ -65,8 +65,8 @@ Ver(k)    == IF k.dv # 0 THEN k.dv ELSE ComputedVer(k.f)
 WFKind(k) == /\ k.dv \in 0..Latest
              /\ k.f \subseteq Feat
              /\ k.dv # 0 => k.f \subseteq Avail(k.dv)     \* asserted by the constructor and by set_*
-Kinds     == ({k \in [dv : 0..Latest, f : SUBSET Feat] : WFKind(k)})
-KindsOfVerT   == TLCEval([v \in Versions |-> ({k \in Kinds : Ver(k) = v})])
+Kinds     == {k \in [dv : 0..Latest, f : SUBSET Feat] : WFKind(k)}
+KindsOfVerT   == TLCEval([v \in Versions |-> {k \in Kinds : Ver(k) = v}])
 KindsOfVer(v) == KindsOfVerT[v]
 NoKind    == [dv |-> 0, f |-> {}]
 
@@ -104,7 +104,7 @@ IsGlbIn(S, r, a, b) == /\ Ver(r) = Max2(Ver(a), Ver(b)) /\ IsLower(r, a, b)
 \* NormalForm(c) is in Reps and Eq to c (RepOK); Le cannot tell Eq kinds of one version apart
 \* (EqCongruent, checked for every pair); hence a bound that is least among Reps is least among all
 \* kinds of the version.  The quick configuration quantifies over Reps, the thorough one over all kinds.
-RepsT == TLCEval([v \in Versions |-> ({[dv |-> v, f |-> N] : N \in SUBSET Valid(v)})])
+RepsT == TLCEval([v \in Versions |-> {[dv |-> v, f |-> N] : N \in SUBSET Valid(v)}])
 NormalForm(c) == [dv |-> Ver(c), f |-> Norm(c)]
 Others(v) == IF FullBounds THEN KindsOfVer(v) ELSE RepsT[v]
 IsLub(r, a, b) == IsLubIn(Others(Max2(Ver(a), Ver(b))), r, a, b)
